@@ -98,7 +98,7 @@ func matClass(v string) string {
 
 // slot draws the value of a credential-like parameter: mostly one of the kinds that belong there, otherwise anything live.
 func slot(t *rapid.T, label string, right ...string) string {
-	if rapid.IntRange(0, 9).Draw(t, label+"-x") < 7 {
+	if rapid.IntRange(0, 9).Draw(t, label+"-x") < 8 {
 		return rapid.SampledFrom(right).Draw(t, label+"-r")
 	}
 	return rapid.SampledFrom(crossPool).Draw(t, label+"-c")
@@ -170,7 +170,7 @@ func genAuthHeader(t *rapid.T, label string) string {
 	}
 	sep := rapid.SampledFrom([]string{" ", " ", " ", "", "", "  ", "\t", ",", "="}).Draw(t, label+"-sep")
 	val := rapid.SampledFrom([]string{"", "", "", "x", "=", ":", "{at}", "{jwt_at}", "{idt}", "{rt}", "{code}", "{tok0}", "Bearer {at}", "{at} {at}",
-		base64Std("web:s3cret"), base64Std("svc:svcsecret"), base64Std("native:"), base64Std(":"), base64Std("web"), base64Std("web:%zz"), base64Std("{xff}:{xff}"), "!!!", "{big70000}", "{xff}", "é"}).Draw(t, label+"-val")
+		base64Std("web:s3cret"), base64Std("svc:svcsecret"), base64Std("native:"), base64Std(":"), base64Std("web"), base64Std("web:%zz"), base64Std("\xff:\xff"), "!!!", "{big70000}", "{xff}", "é"}).Draw(t, label+"-val")
 	return scheme + sep + val
 }
 
